@@ -421,6 +421,104 @@ theorem auth_binds_identity_partial (lt : Point → Point → Bool) (T : List Se
   · exact absurd h hself
   · exact h
 
+/-! ### Several sessions of one process: freshness as part of the run -/
+
+theorem mkRunFrom_eph : ∀ (specs : List (Nat × Point)) (i : Nat),
+    (mkRunFrom i specs).map (·.eph) = List.range' i specs.length := by
+  intro specs
+  induction specs with
+  | nil => intro i; simp [mkRunFrom]
+  | cons x xs ih => intro i; obtain ⟨o, r⟩ := x; simp [mkRunFrom, ih, List.range'_succ]
+
+/-- Freshness as part of the run: in a run where every started handshake draws the next scalar
+(`mkRun`), all honest ephemerals are distinct — the hypothesis of the theorems below is exactly
+what the stream checks on the cleartext first messages (`eph=distinct`). -/
+theorem mkRun_ephDistinct (specs : List (Nat × Point)) : EphDistinct (mkRun specs) := by
+  unfold EphDistinct mkRun
+  rw [mkRunFrom_eph]
+  exact List.nodup_range'
+
+theorem nodup_map_index {α β : Type} (f : α → β) : ∀ (l : List α), (l.map f).Nodup →
+    ∀ (i j : Nat) (a b : α), l[i]? = some a → l[j]? = some b → f a = f b → i = j := by
+  intro l
+  induction l with
+  | nil => intro _ i j a b h; simp at h
+  | cons x xs ih =>
+    intro hn i j a b hi hj hf
+    simp only [List.map_cons, List.nodup_cons] at hn
+    cases i with
+    | zero =>
+      cases j with
+      | zero => rfl
+      | succ j' =>
+        simp at hi hj; subst hi
+        exact absurd (List.mem_map.mpr ⟨b, List.mem_of_getElem? hj, hf.symm⟩) hn.1
+    | succ i' =>
+      cases j with
+      | zero =>
+        simp at hi hj; subst hj
+        exact absurd (List.mem_map.mpr ⟨a, List.mem_of_getElem? hi, hf⟩) hn.1
+      | succ j' =>
+        simp at hi hj
+        rw [ih hn.2 i' j' a b hi hj hf]
+
+theorem ephDistinct_fresh (T : List Session) (hd : EphDistinct T) :
+    ∀ s1 ∈ T, ∀ s2 ∈ T, s1.eph = s2.eph → s1 = s2 := by
+  intro s1 h1 s2 h2 he
+  obtain ⟨i, hi⟩ := List.getElem?_of_mem h1
+  obtain ⟨j, hj⟩ := List.getElem?_of_mem h2
+  have := nodup_map_index (fun x : Session => x.eph) T hd i j s1 s2 hi hj he
+  subst this
+  rw [hi] at hj; exact Option.some.inj hj
+
+/-- `auth_binds_identity` over a run whose ephemerals are observed distinct. -/
+theorem auth_binds_identity_run (lt : Point → Point → Bool) (T : List Session) (hd : EphDistinct T)
+    (s : Session) (hs : s ∈ T) (env : Sealed) (hdel : Deliverable lt T env) (p : Nat)
+    (hacc : s.finish lt (some env) = .ok (.honest p)) (hself : p ≠ s.owner) :
+    ∃ s' ∈ T, s'.owner = p ∧ s.rem = .honest s'.eph ∧ s'.rem = .honest s.eph :=
+  auth_binds_identity_partial lt T (ephDistinct_fresh T hd) s hs env hdel p hacc hself
+
+/-- Injective agreement (no replay across sessions): with distinct ephemerals, two different
+sessions of the run (indices `i ≠ j`) are never served by one and the same peer session — a
+recorded peer half authenticates at most the one session it was run with. -/
+theorem injective_agreement (T : List Session) (hd : EphDistinct T) (i j i' j' : Nat)
+    (si sj pi pj : Session) (hi : T[i]? = some si) (hj : T[j]? = some sj)
+    (hi' : T[i']? = some pi) (hj' : T[j']? = some pj) (hij : i ≠ j)
+    (hmi : pi.rem = .honest si.eph) (hmj : pj.rem = .honest sj.eph) : i' ≠ j' := by
+  intro h
+  subst h
+  rw [hi'] at hj'
+  have := Option.some.inj hj'
+  subst this
+  rw [hmi] at hmj
+  exact hij (nodup_map_index (fun x : Session => x.eph) T hd i j si sj hi hj (Point.honest.inj hmj))
+
+/-- A handshake whose (fresh) ephemeral no honest session ever received accepts no foreign honest
+identity, whatever recorded or fabricated frame it is handed: replaying the remote side of an
+earlier session into a later session of the same node fails. -/
+theorem replay_into_fresh_session_fails (lt : Point → Point → Bool) (T : List Session)
+    (hd : EphDistinct T) (s : Session) (hs : s ∈ T)
+    (hunseen : ∀ y ∈ T, y.rem ≠ .honest s.eph)
+    (env : Sealed) (hdel : Deliverable lt T env) (p : Nat) (hself : p ≠ s.owner) :
+    s.finish lt (some env) ≠ .ok (.honest p) := by
+  intro hacc
+  obtain ⟨s', hs', _, _, h2⟩ := auth_binds_identity_run lt T hd s hs env hdel p hacc hself
+  exact hunseen s' hs' h2
+
+/-- The freshness hypothesis is necessary (this is the behaviour of an implementation that
+recycles ephemeral key pairs between handshakes): in a run where session 2 of node 0 shows the
+ephemeral of its session 0 again, the recorded peer half of session 0 is accepted by session 2
+— one peer session serves two sessions, with no key held by the replaying party. -/
+theorem eph_reuse_allows_replay :
+    let T : List Session := [⟨0, 5, .honest 6⟩, ⟨1, 6, .honest 5⟩, ⟨0, 5, .honest 6⟩]
+    let lt0 : Point → Point → Bool := fun x y => match x, y with
+      | .honest i, .honest j => i < j | _, _ => false
+    ¬ EphDistinct T ∧
+    ∃ x s env, T[1]? = some x ∧ T[2]? = some s ∧ x.authOut lt0 = some env ∧
+      Deliverable lt0 T env ∧ s.finish lt0 (some env) = .ok (.honest 1) := by
+  refine ⟨by decide, ⟨1, 6, .honest 5⟩, ⟨0, 5, .honest 6⟩, _, rfl, rfl, rfl, ?_, by decide⟩
+  exact Or.inl ⟨⟨1, 6, .honest 5⟩, by simp, rfl⟩
+
 /-- `transport.upgrade` accepts only if the authenticated key is the dialed one (when dialing),
 equals the self-reported one and is not the node's own: the reflected link is refused. -/
 theorem upgrade_excludes_reflection (own conn nodeInfo : Key) (dialed : Option Key)
